@@ -384,6 +384,45 @@ def lookup():
         eval_cells=[D1, E1, F1, S + 'B2'])
 
 
+def spill():
+    """A formula whose value is an array, with free cells below it that
+    other formulas read: they stay free whatever was evaluated."""
+    cells = {S + 'A1': 1, S + 'A2': 2, S + 'A3': 3, S + 'C1': '=A1:A3',
+             S + 'E1': '=SUM(C2:C3)', S + 'E2': '=COUNTA(C2:D3)',
+             S + 'E3': '=ISBLANK(C2)'}
+    spec = ModelSpec('spill', cells, [S + 'A2'], [0, 5], {},
+                     eval_cells=[S + 'C1', S + 'E1', S + 'E2', S + 'E3'])
+    spec.differential = True
+    return spec
+
+
+def ordering():
+    """Ordering criteria over a column that mixes numbers and texts."""
+    cells = {S + 'A1': 10, S + 'A2': 'abc', S + 'A3': 3, S + 'A4': 7,
+             S + 'A5': 'zebra', S + 'B1': '=COUNTIF(A1:A5,"<m")',
+             S + 'B2': '=COUNTIF(A1:A5,">5")',
+             S + 'B3': '=COUNTIF(A1:A5,">=b")',
+             S + 'B4': '=COUNTIF(A1:A5,"<=7")'}
+    spec = ModelSpec('ordering', cells, [S + 'A1'], [0, 5], {},
+                     eval_cells=[S + 'B1', S + 'B2', S + 'B3', S + 'B4'])
+    spec.differential = True
+    return spec
+
+
+def xirr():
+    """Two schedules of cash flows: on one the iteration fails from the
+    default guess, on the other it converges."""
+    cells = {S + 'A1': -1000, S + 'A2': 300, S + 'B1': 43831,
+             S + 'B2': 43831 + 1461, S + 'C1': -1000, S + 'C2': 900,
+             S + 'D1': 43831, S + 'D2': 43831 + 366,
+             S + 'E1': '=XIRR(A1:A2,B1:B2)', S + 'E2': '=XIRR(C1:C2,D1:D2)',
+             S + 'E3': '=IF(ISERROR(E1),"n/a","rate")'}
+    spec = ModelSpec('xirr', cells, [S + 'C2'], [0, 5], {},
+                     eval_cells=[S + 'E1', S + 'E2', S + 'E3'])
+    spec.differential = True
+    return spec
+
+
 def wholerow():
     """A whole-row reference: the row has 16 384 members, whichever of them
     are stored when the model is compiled (D1 is not, until it is set)."""
@@ -402,7 +441,8 @@ COSTLY = [wholerow]
 ALL = [chain, diamond, sumrange, formularange, crosssheet, textmodel, named,
        branch, lookup, errrange, typed, guarded, named_extracted, othersheet,
        logic]
-ALL_C05 = ALL + [twodim, longrange, criteria, overflow, raising]
+ALL_C05 = ALL + [twodim, longrange, criteria, overflow, raising, spill,
+                 ordering, xirr]
 
 
 def by_name(name):
